@@ -298,6 +298,15 @@ func tileParent(t Tile, k int, n int64) Tile {
 }
 
 func (r *tileHashReader) ReadHashes(indexes []int64) ([]Hash, error) {
+	if r.tree.N <= 0 {
+		// An empty tree has no stored hashes:
+		// there is nothing to read and nothing to authenticate.
+		if len(indexes) > 0 {
+			return nil, fmt.Errorf("indexes not in tree")
+		}
+		return nil, nil
+	}
+
 	h := r.tr.Height()
 
 	tileOrder := make(map[Tile]int) // tileOrder[tileKey(tiles[i])] = i
